@@ -159,14 +159,17 @@ def run_info_cases(ctx, cases, tag):
     """cases: dict(intact=bytes, damaged=bytes, model_full=bool).  The info-only
     decode of the damaged message must succeed and agree with the full decode
     of the intact one on sections 0-3; it is also compared with the model."""
-    lines = [fc.dec_line(c['damaged'], True, True, False) for c in cases]
+    # metadata-only decoding with and without ignore_value_expectation (the two options compose)
+    cases = [dict(c, ignexp=ign) for c in cases for ign in (False, True)]
+    lines = [fc.dec_line(c['damaged'], True, True, c['ignexp']) for c in cases]
     mouts = lib.run_model_sharded(lines)
     for c, line, mo in zip(cases, lines, mouts):
-        io, mi = fc.impl_decode(c['damaged'], True, True, False)
+        io, mi = fc.impl_decode(c['damaged'], True, True, c['ignexp'])
         full_io, mf = fc.impl_decode(c['intact'], True, False, False)
         ctx.count(('info', line), True)
-        ctx.dist['info:' + tag] += 1
-        rec = {'op': 'info', 'intact': c['intact'].hex(), 'damaged': c['damaged'].hex(), 'what': c.get('what', '')}
+        ctx.dist['info:' + tag + (':ignore_value_expectation' if c['ignexp'] else '')] += 1
+        rec = {'op': 'info', 'intact': c['intact'].hex(), 'damaged': c['damaged'].hex(), 'what': c.get('what', ''),
+               'ignore_value_expectation': c['ignexp']}
 
         def holds():
             if mi is None or mf is None:
